@@ -108,7 +108,7 @@ def in_to_plist_region(w, f=None):
     return len(fm) == 2 and fm[1] == 'plist' and fm[0] != 'plist'
 
 
-REGIONS = dict(to_plist=in_to_plist_region, mset_duplicates=lambda w, f: th.has_duplicate_members(w))
+REGIONS = dict(to_plist=in_to_plist_region, mset_duplicates=lambda w, f: th.matcher_collapse_region(w))
 
 
 def run_job(job):
